@@ -542,6 +542,7 @@ func C03(p *engine.Prog, r *engine.Report) {
 	importRules(p, r, "C10", map[string]string{"C10-R4": "C03-R8", "C10-R5": "C03-R8", "C10-R6": "C03-R8", "C10-R7": "C03-R8"})
 	c03R9(p, r)
 	processTxsExhaustiveRule(p, r, "C03-R9")
+	totalCostNoBypassRule(p, r, "C03-R9")
 	// no result of a fallible call is consumed before that call's error test (belief contradiction:
 	// the code tests the error, so it believes the call can fail — and uses the value first)
 	{
